@@ -14,6 +14,7 @@ KINDS_ALL = EXC_KINDS + ["nan", "posinf", "neginf", "complex", "vector", "none",
 EXC_OF = {"raise": "InjectedFault", "raise_noargs": "InjectedFault", "raise_assert": "AssertionError", "raise_keyerror": "KeyError",
           "raise_stopiteration": "StopIteration", "raise_generatorexit": "RuntimeError"}
 KINDS_HE = ["notpair", "sdzero", "sdneg", "sdnan", "sdinf"]
+KINDS_SCALAR = ["pair", "pair_bad_sd"]          # only invalid when the noise is not user-specified
 SITE = "function_logger.py:__call__ / bads.py target call sites"
 
 # case kinds of corpus/ entries (failing inputs of past regressions) that this module replays on every run
@@ -70,9 +71,9 @@ def run(ctx):
         if t["error"] is not None:
             continue      # C09's business
         ks, calls = positions(t, rng, ctx.tier)
-        kinds = KINDS_ALL + (KINDS_HE if sp["mode"] == "he" else [])
+        kinds = KINDS_ALL + (KINDS_HE if sp["mode"] == "he" else KINDS_SCALAR)
         for k in ks:
-            use = kinds if ctx.tier != "quick" else rng.sample(kinds, min(len(kinds), 6)) + rng.sample(EXC_KINDS, 3)
+            use = kinds if ctx.tier != "quick" else rng.sample(kinds, min(len(kinds), 6)) + rng.sample(EXC_KINDS, 3) + ([rng.choice(KINDS_SCALAR)] if sp["mode"] != "he" else [])
             for kind in sorted(set(use)):
                 jobs.append((sp, {"fault": {k: kind}, "want": ("ctl",)}))
                 phase = next((e["phase"] + ("" if e["rec"] else "/norec") for e in calls if e["k"] == k), "?")
